@@ -75,6 +75,8 @@ Defs == [
   N6  |-> [flavour |-> "namedtuple",   module |-> "m1", py |-> "N6",  fields |-> << <<"count", P("int"), FALSE>>, <<"index", P("Decimal"), FALSE>> >>],
   \* a slotted dataclass without any field (no __dict__ to fall back on)
   E0  |-> [flavour |-> "dc_slots",     module |-> "m1", py |-> "E0",  fields |-> << >>],
+  \* a dataclass whose instances can be called (a structured class like any other)
+  K1  |-> [flavour |-> "dc_call",      module |-> "m1", py |-> "K1",  fields |-> << <<"n", P("int"), FALSE>>, <<"at", P("date"), FALSE>> >>],
   \* no class-level annotations: members come from the constructor's signature, one of them keyword-only
   G1  |-> [flavour |-> "sig",          module |-> "m1", py |-> "G1",  fields |-> << <<"a", P("int"), FALSE>>, <<"when", Opt(P("date")), TRUE>> >>],
   \* a second recursive class with the Python name of R1, in another module, with other field types
